@@ -194,7 +194,7 @@ func (s SplitKey) PathItemRef() spec.Ref {
 		return spec.Ref{}
 	}
 
-	return spec.MustCreateRef("#" + path.Join("/", paths, jsonpointer.Escape(pth), strings.ToUpper(method)))
+	return spec.MustCreateRef("#" + strings.ReplaceAll(path.Join("/", paths, jsonpointer.Escape(pth), strings.ToUpper(method)), "%", "%25")) // a literal '%' must be escaped in a URI fragment
 }
 
 // PathRef constructs a $ref object from a split key of the form /paths/{reference}
@@ -203,5 +203,5 @@ func (s SplitKey) PathRef() spec.Ref {
 		return spec.Ref{}
 	}
 
-	return spec.MustCreateRef("#" + path.Join("/", paths, jsonpointer.Escape(s[1])))
+	return spec.MustCreateRef("#" + strings.ReplaceAll(path.Join("/", paths, jsonpointer.Escape(s[1])), "%", "%25")) // a literal '%' must be escaped in a URI fragment
 }
